@@ -127,6 +127,9 @@ def _scf_eval(inp: Dict[str, Any]) -> Dict[str, Any]:
         P = r["dm"]
         Pt = torch.as_tensor(P)
         Pp = [pack(Pt[:, s_], mol.nHeavy, mol.nHydro).numpy() for s_ in range(2)]
+        Fp = None
+        if "F" in cap and cap["F"].dim() == 4:
+            Fp = [pack(cap["F"][:, s_], mol.nHeavy, mol.nHydro).numpy() for s_ in range(2)]
         for m in range(nmol):
             if notconv[m]:
                 continue
@@ -143,6 +146,18 @@ def _scf_eval(inp: Dict[str, Any]) -> Dict[str, Any]:
                 trs = abs(np.trace(Pm) - no_s)
                 if trs > max(1e-8, 50 * eps * K):
                     bad.append(f"mol{m} spin{s_}: trace {np.trace(Pm):.6f} != number of spin-{s_} electrons {no_s}"); kinds.add("trace")
+                # each spin density commutes with / is reproduced by its own Fock operator (same bounds as the restricted case)
+                if Fp is not None:
+                    Fm = Fp[s_][m][:nb, :nb]
+                    com = np.abs(Fm @ Pm - Pm @ Fm).max()
+                    if com > max(1e-6, 4000 * eps * K):
+                        bad.append(f"mol{m} spin{s_}: commutator [F,P] {com:.2e} for a molecule reported converged at eps={eps:g}"); kinds.add("commutator")
+                    ev, C = np.linalg.eigh(0.5 * (Fm + Fm.T))
+                    gap = ev[no_s] - ev[no_s - 1] if 0 < no_s < nb else 1.0
+                    if gap > 1e-3:
+                        rd = np.abs(C[:, :no_s] @ C[:, :no_s].T - Pm).max()
+                        if rd > max(1e-7, 2000 * eps * K / max(gap, 1e-2) * 0.05 + 400 * eps * K):
+                            bad.append(f"mol{m} spin{s_}: re-diagonalised spin density differs by {rd:.2e}"); kinds.add("rediag")
             tr = abs(np.trace(P[m, 0]) + np.trace(P[m, 1]) - nel[m])
             if tr > 1e-7:
                 bad.append(f"mol{m}: trace off by {tr:.2e}"); kinds.add("trace")
@@ -210,6 +225,12 @@ def gen_cases(ctx: Ctx):
     # unrestricted reference with the fixed-mixing solver (every solver x spin combination that the package accepts)
     cases.append({"names": ["oh"], "method": "AM1", "eps": 1e-8, "converger": [0, 0.3], "uhf": True})
     cases.append({"names": [str(rng.choice(["no", "o2", "oh"]))], "method": str(rng.choice(methods)), "eps": 1e-8, "converger": [0, float(rng.choice([0.0, 0.5]))], "uhf": True})
+    # unrestricted x every kind of initial density (a perturbed start is perturbed independently in the two spin channels: a spin-broken
+    # density, as left by a previous geometry of a radical or by a user-supplied guess) x thresholds
+    ucases = [(["h2o", "hcn"], "MNDO", 1e-10, [0, 0.3], "perturbed"), (["oh"], "AM1", 1e-9, [1], "perturbed"), (["no", "h2o"], "PM3", 1e-8, [0, 0.3], "previous"),
+              (["o2"], "MNDO", 1e-10, [1], "perturbed"), (["ch2o"], "AM1", 1e-11, [0, 0.5], "perturbed"), (["oh", "nh3"], "PM6_SP", 1e-9, [1], "perturbed")]
+    for names, meth, e, conv, init in (ucases if ctx.thorough else ucases[:3]):
+        cases.append({"names": names, "method": meth, "eps": e, "converger": conv, "uhf": True, "init": init, "seed": int(rng.integers(0, 10**6))})
     # batch mates with equal orbital count but different heavy/hydrogen split, also as the ACTIVE subset left mid-SCF (H2 converges first)
     for names in (["ch4", "co"], ["h2", "ch4", "co"], ["so2", "c2h4"]):
         cases.append({"names": names, "method": str(rng.choice(methods)), "eps": 1e-9, "converger": [[1], [0, 0.2]][int(rng.integers(0, 2))], "pad_to": max(len(esh.GEOMS[v][0]) for v in names)})
